@@ -9,21 +9,23 @@ namespace NetVerif.Proofs.DnsMsg
 open NetVerif.Model.Dns NetVerif.Proofs.Dns NetVerif.Proofs.C36
 
 /-- the invariant for an optional compression map (`nil` map = compression disabled) -/
-def CompInvOpt (msg : Bytes) : Option CompMap → Prop
+def CompInvOpt (k : Nat) (msg : Bytes) : Option CompMap → Prop
   | none => True
-  | some m => CompInv msg m
+  | some m => CompInv k msg m
 
-theorem CompInvOpt.append {msg : Bytes} {c : Option CompMap} (h : CompInvOpt msg c) (ext : Bytes) :
-    CompInvOpt (msg ++ ext) c := by
+theorem CompInvOpt.append {k : Nat} {msg : Bytes} {c : Option CompMap} (h : CompInvOpt k msg c) (ext : Bytes) :
+    CompInvOpt k (msg ++ ext) c := by
   cases c with
   | none => trivial
   | some m => exact CompInv.append h ext
 
+variable {k : Nat}
+
 /-- `Name.pack` at the end of `msg`, in inversion form. -/
 theorem packName_spec (msg n bs : Bytes) (comp comp' : Option CompMap)
-    (hinv : CompInvOpt msg comp) (hc : Canonical n)
+    (hinv : CompInvOpt k msg comp) (hk : k ≤ msg.length) (hc : Canonical n)
     (hp : packName n msg comp = .ok (bs, comp')) :
-    comp'.isNone = comp.isNone ∧ CompInvOpt (msg ++ bs) comp' ∧
+    comp'.isNone = comp.isNone ∧ CompInvOpt k (msg ++ bs) comp' ∧
     ∀ post, unpackName (msg ++ bs ++ post) msg.length = .ok (n, msg.length + bs.length) := by
   cases comp with
   | none =>
@@ -33,7 +35,7 @@ theorem packName_spec (msg n bs : Bytes) (comp comp' : Option CompMap)
     rcases hp with ⟨rfl, rfl⟩
     exact ⟨rfl, trivial, fun post => hu msg post⟩
   | some m =>
-    rcases name_roundtrip_comp msg m n hinv hc with ⟨bs0, m', hp0, hinv', hu⟩
+    rcases name_roundtrip_comp msg m n hinv hk hc with ⟨bs0, m', hp0, hinv', hu⟩
     rw [hp0] at hp
     simp only [Except.ok.injEq, Prod.mk.injEq] at hp
     rcases hp with ⟨rfl, rfl⟩
@@ -58,9 +60,9 @@ theorem u32At_drop {F : Bytes} {off v : Nat} {rest : Bytes} (h : F.drop off = u3
 def WFQuestion (q : Question) : Prop := Canonical q.name ∧ q.typ < 65536 ∧ q.cls < 65536
 
 theorem packQuestion_spec (msg bs : Bytes) (q : Question) (comp comp' : Option CompMap)
-    (hinv : CompInvOpt msg comp) (hwf : WFQuestion q)
+    (hinv : CompInvOpt k msg comp) (hk : k ≤ msg.length) (hwf : WFQuestion q)
     (hp : packQuestion q msg comp = .ok (bs, comp')) :
-    comp'.isNone = comp.isNone ∧ CompInvOpt (msg ++ bs) comp' ∧
+    comp'.isNone = comp.isNone ∧ CompInvOpt k (msg ++ bs) comp' ∧
     ∀ post, unpackQuestion (msg ++ bs ++ post) msg.length = .ok (q, msg.length + bs.length) := by
   unfold packQuestion at hp
   cases hn : packName q.name msg comp with
@@ -70,7 +72,7 @@ theorem packQuestion_spec (msg bs : Bytes) (q : Question) (comp comp' : Option C
     rw [hn] at hp
     simp only [Except.ok.injEq, Prod.mk.injEq] at hp
     rcases hp with ⟨rfl, rfl⟩
-    rcases packName_spec msg q.name nb comp c1 hinv hwf.1 hn with ⟨hnone, hinv1, hread⟩
+    rcases packName_spec msg q.name nb comp c1 hinv hk hwf.1 hn with ⟨hnone, hinv1, hread⟩
     refine ⟨hnone, ?_, fun post => ?_⟩
     · have := hinv1.append (u16 q.typ ++ u16 q.cls)
       simpa [List.append_assoc] using this
@@ -323,6 +325,55 @@ theorem packParams_length : ∀ (ps : List (Nat × Bytes)) (prev : Option Nat) (
           have := ih _ _ hr
           simp [u16]; omega
 
+/-- the in-place walk over an uncompressed name finds no pointer -/
+theorem targetCompressed_enc : ∀ (ls : List Bytes) (pre tail : Bytes) (fuel : Nat), LabelsOK ls →
+    targetCompressed (pre ++ encLabels ls ++ 0 :: tail) fuel pre.length
+      (pre.length + (encLabels ls).length + 1) = false := by
+  intro ls
+  induction ls with
+  | nil =>
+    intro pre tail fuel _
+    cases fuel with
+    | zero => rfl
+    | succ fuel =>
+      unfold targetCompressed
+      simp only [encLabels, List.append_nil, List.length_nil, Nat.add_zero, Nat.lt_add_one, if_true, List.drop_left]
+      simp only [Nat.zero_div, Nat.reduceEqDiff, reduceIte]
+      cases fuel with
+      | zero => rfl
+      | succ f => simp [targetCompressed]
+  | cons l ls ih =>
+    intro pre tail fuel hok
+    have hl : LabelOK l := hok l (by simp)
+    have hls : LabelsOK ls := fun x hx => hok x (by simp [hx])
+    cases fuel with
+    | zero => rfl
+    | succ fuel =>
+      have hih := ih (pre ++ l.length :: l) tail fuel hls
+      have hlist : pre ++ encLabels (l :: ls) ++ 0 :: tail = pre ++ l.length :: l ++ encLabels ls ++ 0 :: tail := by
+        simp [encLabels]
+      have hdrop : (pre ++ encLabels (l :: ls) ++ 0 :: tail).drop pre.length =
+          l.length :: (l ++ (encLabels ls ++ 0 :: tail)) := by simp [encLabels]
+      have h1 : pre.length < pre.length + (encLabels (l :: ls)).length + 1 := by omega
+      have h2 : ¬ l.length / 64 = 3 := by have := hl.2.1; omega
+      have h3 : pre.length + 1 + l.length = (pre ++ l.length :: l).length := by simp; omega
+      have h4 : pre.length + (encLabels (l :: ls)).length + 1 = (pre ++ l.length :: l).length + (encLabels ls).length + 1 := by
+        simp [encLabels]; omega
+      unfold targetCompressed
+      simp only [h1, if_true, hdrop, h2, if_false]
+      rw [h3, h4, hlist]
+      exact hih
+
+/-- the bytes of an uncompressed canonical name, as `Name.pack` writes them without a map -/
+theorem packName_none_bytes (n buf : Bytes) (hc : Canonical n) :
+    (n = [46] ∧ packName n buf none = .ok ([0], none)) ∨
+    ∃ ls, ls ≠ [] ∧ LabelsOK ls ∧ n = textOf ls ∧ packName n buf none = .ok (encLabels ls ++ [0], none) := by
+  rcases hc with ⟨hlen, hroot | ⟨ls, hne, hok, rfl⟩⟩
+  · left; subst hroot; exact ⟨rfl, by simp [packName]⟩
+  · right
+    refine ⟨ls, hne, hok, rfl, ?_⟩
+    rw [packName_textOf hne hok hlen, packLoop_labels_none buf ls [] hok]; simp
+
 /-- `SVCBResource.pack` / `unpackSVCBResource` (no compression is ever used here). -/
 theorem svcb_spec (msg bb : Bytes) (prio : Nat) (target : Bytes) (ps : List (Nat × Bytes))
     (hprio : prio < 65536) (hc : Canonical target) (hwf : WFPairs16 ps)
@@ -353,12 +404,26 @@ theorem svcb_spec (msg bb : Bytes) (prio : Nat) (target : Bytes) (ps : List (Nat
     have hoff : msg.length + 2 + tb.length = (msg ++ u16 prio ++ tb).length := by simp [u16]; omega
     have hend : msg.length + (u16 prio ++ tb ++ pb).length = (msg ++ u16 prio ++ tb).length + pb.length := by
       simp [u16]; omega
+    have hnc : targetCompressed (msg ++ (u16 prio ++ tb ++ pb) ++ post) (msg.length + 2 + tb.length + 1)
+        (msg.length + 2) (msg.length + 2 + tb.length) = false := by
+      rcases packName_none_bytes target [] hc with ⟨_, hb⟩ | ⟨ls, _, hok, _, hb⟩
+      · rw [htp] at hb
+        simp only [Except.ok.injEq, Prod.mk.injEq] at hb
+        rw [hb.1]
+        have := targetCompressed_enc [] (msg ++ u16 prio) (pb ++ post) (msg.length + 2 + 1 + 1) (by intro l hl; simp at hl)
+        simpa [encLabels, u16, List.append_assoc, Nat.add_assoc] using this
+      · rw [htp] at hb
+        simp only [Except.ok.injEq, Prod.mk.injEq] at hb
+        rw [hb.1]
+        have := targetCompressed_enc ls (msg ++ u16 prio) (pb ++ post) (msg.length + 2 + (encLabels ls ++ [0]).length + 1) hok
+        simpa [u16, List.append_assoc, Nat.add_assoc] using this
     unfold unpackSVCB
-    simp only [h1, h2]
+    simp only [h1, h2, hnc]
     rw [hF] at hp1
     rw [hoff, hend, hF, hp1]
     simp only []
     rw [hp2]
+    simp
 
 /-- the types `unpackResourceBody` has a case for -/
 def knownTypes : List Nat := [1, 2, 5, 6, 12, 15, 16, 28, 33, 41, 64, 65]
@@ -383,12 +448,12 @@ def WFBody : Body → Prop
   | .unknown t _ => t < 65536 ∧ t ∉ knownTypes
 
 theorem packBody_name_spec (msg bb n : Bytes) (comp comp' : Option CompMap) (mk : Bytes → Body) (typ : Nat)
-    (hinv : CompInvOpt msg comp) (hc : Canonical n)
+    (hinv : CompInvOpt k msg comp) (hk : k ≤ msg.length) (hc : Canonical n)
     (hp : packName n msg comp = .ok (bb, comp'))
     (hun : ∀ F off len, unpackBody F off typ len = (nameOnly F off).map mk) :
-    comp'.isNone = comp.isNone ∧ CompInvOpt (msg ++ bb) comp' ∧
+    comp'.isNone = comp.isNone ∧ CompInvOpt k (msg ++ bb) comp' ∧
     ∀ post, unpackBody (msg ++ bb ++ post) msg.length typ bb.length = .ok (mk n) := by
-  rcases packName_spec msg n bb comp comp' hinv hc hp with ⟨h1, h2, h3⟩
+  rcases packName_spec msg n bb comp comp' hinv hk hc hp with ⟨h1, h2, h3⟩
   refine ⟨h1, h2, fun post => ?_⟩
   rw [hun, nameOnly_of_ok (h3 post)]
   rfl
@@ -396,9 +461,9 @@ theorem packBody_name_spec (msg bb n : Bytes) (comp comp' : Option CompMap) (mk 
 /-- **Every resource body**: `ResourceBody.pack` at the end of `msg`, then `unpackResourceBody`
 with the packed length, gives the body back. -/
 theorem packBody_spec (msg bb : Bytes) (b : Body) (comp comp' : Option CompMap)
-    (hinv : CompInvOpt msg comp) (hwf : WFBody b)
+    (hinv : CompInvOpt k msg comp) (hk : k ≤ msg.length) (hwf : WFBody b)
     (hp : packBody b msg comp = .ok (bb, comp')) :
-    comp'.isNone = comp.isNone ∧ CompInvOpt (msg ++ bb) comp' ∧
+    comp'.isNone = comp.isNone ∧ CompInvOpt k (msg ++ bb) comp' ∧
     ∀ post, unpackBody (msg ++ bb ++ post) msg.length b.realType bb.length = .ok b := by
   cases b with
   | a ip =>
@@ -420,13 +485,13 @@ theorem packBody_spec (msg bb : Bytes) (b : Body) (comp comp' : Option CompMap)
     simp only [unpackBody, Body.realType, typeAAAA, Nat.reduceEqDiff, reduceIte, hwf]
     rw [this]; rfl
   | ns n =>
-    exact packBody_name_spec msg bb n comp comp' Body.ns 2 hinv hwf (by simpa [packBody] using hp)
+    exact packBody_name_spec msg bb n comp comp' Body.ns 2 hinv hk hwf (by simpa [packBody] using hp)
       (by intro F off len; simp [unpackBody])
   | cname n =>
-    exact packBody_name_spec msg bb n comp comp' Body.cname 5 hinv hwf (by simpa [packBody] using hp)
+    exact packBody_name_spec msg bb n comp comp' Body.cname 5 hinv hk hwf (by simpa [packBody] using hp)
       (by intro F off len; simp [unpackBody])
   | ptr n =>
-    exact packBody_name_spec msg bb n comp comp' Body.ptr 12 hinv hwf (by simpa [packBody] using hp)
+    exact packBody_name_spec msg bb n comp comp' Body.ptr 12 hinv hk hwf (by simpa [packBody] using hp)
       (by intro F off len; simp [unpackBody])
   | mx pref n =>
     simp only [packBody] at hp
@@ -437,7 +502,7 @@ theorem packBody_spec (msg bb : Bytes) (b : Body) (comp comp' : Option CompMap)
       rw [hn] at hp
       simp only [Except.ok.injEq, Prod.mk.injEq] at hp
       rcases hp with ⟨rfl, rfl⟩
-      rcases packName_spec (msg ++ u16 pref) n nb comp c1 (hinv.append _) hwf.2 hn with ⟨h1, h2, h3⟩
+      rcases packName_spec (msg ++ u16 pref) n nb comp c1 (hinv.append _) (by simp; omega) hwf.2 hn with ⟨h1, h2, h3⟩
       refine ⟨h1, by simpa [List.append_assoc] using h2, fun post => ?_⟩
       have hpos : msg.length + 2 = (msg ++ u16 pref).length := by simp [u16]
       have hF : msg ++ (u16 pref ++ nb) ++ post = msg ++ u16 pref ++ nb ++ post := by simp
@@ -477,8 +542,8 @@ theorem packBody_spec (msg bb : Bytes) (b : Body) (comp comp' : Option CompMap)
         rw [hn2] at hp
         simp only [Except.ok.injEq, Prod.mk.injEq] at hp
         rcases hp with ⟨rfl, rfl⟩
-        rcases packName_spec msg ns b1 comp c1 hinv hc1 hn1 with ⟨g1, g2, g3⟩
-        rcases packName_spec (msg ++ b1) mbox b2 c1 c2 g2 hc2 hn2 with ⟨k1, k2, k3⟩
+        rcases packName_spec msg ns b1 comp c1 hinv hk hc1 hn1 with ⟨g1, g2, g3⟩
+        rcases packName_spec (msg ++ b1) mbox b2 c1 c2 g2 (by simp; omega) hc2 hn2 with ⟨k1, k2, k3⟩
         refine ⟨by rw [k1, g1], ?_, fun post => ?_⟩
         · have := k2.append (u32 a ++ u32 b ++ u32 c ++ u32 d ++ u32 e)
           simpa [List.append_assoc] using this
@@ -589,9 +654,9 @@ theorem realType_lt {b : Body} (h : WFBody b) : b.realType < 65536 := by
 /-- **One resource record**: header (with the `Type` of the body and the final `Length`) and
 body are read back; the result is the record as `Pack` normalises it. -/
 theorem packResource_spec (msg bs : Bytes) (r : Resource) (comp comp' : Option CompMap)
-    (hinv : CompInvOpt msg comp) (hwf : WFResource r)
+    (hinv : CompInvOpt k msg comp) (hk : k ≤ msg.length) (hwf : WFResource r)
     (hp : packResource r msg comp = .ok (bs, comp')) :
-    comp'.isNone = comp.isNone ∧ CompInvOpt (msg ++ bs) comp' ∧
+    comp'.isNone = comp.isNone ∧ CompInvOpt k (msg ++ bs) comp' ∧
     ∃ len, ∀ post, unpackResource (msg ++ bs ++ post) msg.length =
       .ok (normResource r len, msg.length + bs.length) := by
   rcases hwf with ⟨hc, hcls, httl, hb⟩
@@ -622,15 +687,15 @@ theorem packResource_spec (msg bs : Bytes) (r : Resource) (comp comp' : Option C
           simp only [Except.ok.injEq, Prod.mk.injEq] at hp
           rcases hp with ⟨rfl, rfl⟩
           have hlen' : bb.length < 65536 := by omega
-          rcases packName_spec msg r.hdr.name nb comp c1 hinv hc hn with ⟨g1, g2, g3⟩
+          rcases packName_spec msg r.hdr.name nb comp c1 hinv hk hc hn with ⟨g1, g2, g3⟩
           have hpos : msg.length + nb.length + 10 =
               (msg ++ nb ++ u16 r.body.realType ++ u16 r.hdr.cls ++ u32 r.hdr.ttl ++ u16 bb.length).length := by
             simp [u16, u32]; omega
-          have hinvB : CompInvOpt (msg ++ nb ++ u16 r.body.realType ++ u16 r.hdr.cls ++ u32 r.hdr.ttl ++
+          have hinvB : CompInvOpt k (msg ++ nb ++ u16 r.body.realType ++ u16 r.hdr.cls ++ u32 r.hdr.ttl ++
               u16 bb.length) c1 := by
             have := g2.append (u16 r.body.realType ++ u16 r.hdr.cls ++ u32 r.hdr.ttl ++ u16 bb.length)
             simpa [List.append_assoc] using this
-          rcases packBody_spec _ bb r.body c1 c2 hinvB hb hbp with ⟨k1, k2, k3⟩
+          rcases packBody_spec _ bb r.body c1 c2 hinvB (by simp [u16, u32]; omega) hb hbp with ⟨k1, k2, k3⟩
           refine ⟨by rw [k1, g1], by simpa [List.append_assoc] using k2, bb.length, fun post => ?_⟩
           have hF : msg ++ (nb ++ u16 r.body.realType ++ u16 r.hdr.cls ++ u32 r.hdr.ttl ++ u16 bb.length ++ bb) ++ post =
               msg ++ nb ++ (u16 r.body.realType ++ u16 r.hdr.cls ++ u32 r.hdr.ttl ++ u16 bb.length ++ bb ++ post) := by
@@ -663,19 +728,19 @@ theorem packResource_spec (msg bs : Bytes) (r : Resource) (comp comp' : Option C
 /-! ## Sections -/
 
 theorem packQuestions_spec : ∀ (qs : List Question) (msg bs : Bytes) (comp comp' : Option CompMap),
-    CompInvOpt msg comp → (∀ q ∈ qs, WFQuestion q) →
+    CompInvOpt k msg comp → k ≤ msg.length → (∀ q ∈ qs, WFQuestion q) →
     packQuestions qs msg comp = .ok (bs, comp') →
-    comp'.isNone = comp.isNone ∧ CompInvOpt (msg ++ bs) comp' ∧
+    comp'.isNone = comp.isNone ∧ CompInvOpt k (msg ++ bs) comp' ∧
     ∀ post, unpackQuestions (msg ++ bs ++ post) qs.length msg.length = .ok (qs, msg.length + bs.length) := by
   intro qs
   induction qs with
   | nil =>
-    intro msg bs comp comp' hinv _ hp
+    intro msg bs comp comp' hinv hk _ hp
     simp only [packQuestions, Except.ok.injEq, Prod.mk.injEq] at hp
     rcases hp with ⟨rfl, rfl⟩
     exact ⟨rfl, by simpa using hinv, fun post => by simp [unpackQuestions]⟩
   | cons q qs ih =>
-    intro msg bs comp comp' hinv hwf hp
+    intro msg bs comp comp' hinv hk hwf hp
     unfold packQuestions at hp
     cases h1 : packQuestion q msg comp with
     | error e => rw [h1] at hp; simp at hp
@@ -691,8 +756,8 @@ theorem packQuestions_spec : ∀ (qs : List Question) (msg bs : Bytes) (comp com
         rw [h2] at hp
         simp only [Except.ok.injEq, Prod.mk.injEq] at hp
         rcases hp with ⟨rfl, rfl⟩
-        rcases packQuestion_spec msg b1 q comp c1 hinv (hwf q (by simp)) h1 with ⟨g1, g2, g3⟩
-        rcases ih (msg ++ b1) b2 c1 c2 g2 (fun x hx => hwf x (by simp [hx])) h2 with ⟨k1, k2, k3⟩
+        rcases packQuestion_spec msg b1 q comp c1 hinv hk (hwf q (by simp)) h1 with ⟨g1, g2, g3⟩
+        rcases ih (msg ++ b1) b2 c1 c2 g2 (by simp; omega) (fun x hx => hwf x (by simp [hx])) h2 with ⟨k1, k2, k3⟩
         refine ⟨by rw [k1, g1], by simpa [List.append_assoc] using k2, fun post => ?_⟩
         have hF : msg ++ (b1 ++ b2) ++ post = msg ++ b1 ++ (b2 ++ post) := by simp
         have hF2 : msg ++ (b1 ++ b2) ++ post = msg ++ b1 ++ b2 ++ post := by simp
@@ -704,21 +769,21 @@ theorem packQuestions_spec : ∀ (qs : List Question) (msg bs : Bytes) (comp com
         simp; omega
 
 theorem packResources_spec : ∀ (rs : List Resource) (msg bs : Bytes) (comp comp' : Option CompMap),
-    CompInvOpt msg comp → (∀ r ∈ rs, WFResource r) →
+    CompInvOpt k msg comp → k ≤ msg.length → (∀ r ∈ rs, WFResource r) →
     packResources rs msg comp = .ok (bs, comp') →
-    comp'.isNone = comp.isNone ∧ CompInvOpt (msg ++ bs) comp' ∧
+    comp'.isNone = comp.isNone ∧ CompInvOpt k (msg ++ bs) comp' ∧
     ∃ lens, lens.length = rs.length ∧
       ∀ post, unpackResources (msg ++ bs ++ post) rs.length msg.length =
         .ok (List.zipWith normResource rs lens, msg.length + bs.length) := by
   intro rs
   induction rs with
   | nil =>
-    intro msg bs comp comp' hinv _ hp
+    intro msg bs comp comp' hinv hk _ hp
     simp only [packResources, Except.ok.injEq, Prod.mk.injEq] at hp
     rcases hp with ⟨rfl, rfl⟩
     exact ⟨rfl, by simpa using hinv, [], rfl, fun post => by simp [unpackResources]⟩
   | cons r rs ih =>
-    intro msg bs comp comp' hinv hwf hp
+    intro msg bs comp comp' hinv hk hwf hp
     unfold packResources at hp
     cases h1 : packResource r msg comp with
     | error e => rw [h1] at hp; simp at hp
@@ -734,8 +799,8 @@ theorem packResources_spec : ∀ (rs : List Resource) (msg bs : Bytes) (comp com
         rw [h2] at hp
         simp only [Except.ok.injEq, Prod.mk.injEq] at hp
         rcases hp with ⟨rfl, rfl⟩
-        rcases packResource_spec msg b1 r comp c1 hinv (hwf r (by simp)) h1 with ⟨g1, g2, len, g3⟩
-        rcases ih (msg ++ b1) b2 c1 c2 g2 (fun x hx => hwf x (by simp [hx])) h2 with ⟨k1, k2, lens, hl, k3⟩
+        rcases packResource_spec msg b1 r comp c1 hinv hk (hwf r (by simp)) h1 with ⟨g1, g2, len, g3⟩
+        rcases ih (msg ++ b1) b2 c1 c2 g2 (by simp; omega) (fun x hx => hwf x (by simp [hx])) h2 with ⟨k1, k2, lens, hl, k3⟩
         refine ⟨by rw [k1, g1], by simpa [List.append_assoc] using k2, len :: lens, by simp [hl], fun post => ?_⟩
         have hF : msg ++ (b1 ++ b2) ++ post = msg ++ b1 ++ (b2 ++ post) := by simp
         have hF2 : msg ++ (b1 ++ b2) ++ post = msg ++ b1 ++ b2 ++ post := by simp
@@ -806,10 +871,10 @@ theorem packMessage_spec (m : Message) (comp : Option CompMap) (bytes : Bytes)
           generalize hm0 : packHeader m.hdr m.questions.length m.answers.length m.authorities.length
             m.additionals.length = msg0 at hp
           have hl0 : msg0.length = 12 := by rw [← hm0]; simp [packHeader, u16]
-          have hinv0 : CompInvOpt msg0 comp := by
+          have hinv0 : CompInvOpt 0 msg0 comp := by
             rcases hcomp with rfl | rfl
             · trivial
-            · exact compInv_nil _
+            · exact compInv_nil 0 _
           cases h1 : packQuestions m.questions msg0 comp with
           | error e => rw [h1] at hp; simp at hp
           | ok res1 =>
@@ -838,10 +903,10 @@ theorem packMessage_spec (m : Message) (comp : Option CompMap) (bytes : Bytes)
                   rw [h4] at hp
                   simp only [Except.ok.injEq] at hp
                   subst hp
-                  rcases packQuestions_spec m.questions msg0 b1 comp k1 hinv0 hq h1 with ⟨e1, i1, r1⟩
-                  rcases packResources_spec m.answers (msg0 ++ b1) b2 k1 k2 i1 han h2 with ⟨e2, i2, l1, hl1, r2⟩
-                  rcases packResources_spec m.authorities (msg0 ++ b1 ++ b2) b3 k2 k3 i2 hau h3 with ⟨e3, i3, l2, hl2, r3⟩
-                  rcases packResources_spec m.additionals (msg0 ++ b1 ++ b2 ++ b3) b4 k3 k4 i3 had h4 with ⟨e4, i4, l3, hl3, r4⟩
+                  rcases packQuestions_spec m.questions msg0 b1 comp k1 hinv0 (Nat.zero_le _) hq h1 with ⟨e1, i1, r1⟩
+                  rcases packResources_spec m.answers (msg0 ++ b1) b2 k1 k2 i1 (Nat.zero_le _) han h2 with ⟨e2, i2, l1, hl1, r2⟩
+                  rcases packResources_spec m.authorities (msg0 ++ b1 ++ b2) b3 k2 k3 i2 (Nat.zero_le _) hau h3 with ⟨e3, i3, l2, hl2, r3⟩
+                  rcases packResources_spec m.additionals (msg0 ++ b1 ++ b2 ++ b3) b4 k3 k4 i3 (Nat.zero_le _) had h4 with ⟨e4, i4, l3, hl3, r4⟩
                   refine ⟨l1, l2, l3, hl1, hl2, hl3, ?_⟩
                   have hw := unpackWireHeader_pack m.hdr m.questions.length m.answers.length m.authorities.length
                     m.additionals.length (b1 ++ b2 ++ b3 ++ b4) hid hrc (by omega) (by omega) (by omega) (by omega)
